@@ -510,7 +510,7 @@ class MassBins:
                 raise ValueError(mssg)
 
             # arbitrarily small width around 1.4
-            bins_NS = mbin(*(np.array(ifmr.NS_mf) + [-0.01, 0.01]))
+            bins_NS = mbin(*(np.array(ifmr.NS_mf) + [-0.01, 0.01]).reshape(2, 1))
 
         # Divide out the bins as if they were cut out from the MS bins
         else:
